@@ -1,6 +1,7 @@
 package jgen
 
 import (
+	"bytes"
 	"encoding/base64"
 	stdjson "encoding/json"
 	"fmt"
@@ -584,6 +585,8 @@ func genDocFor(rt *rapid.T, sb *strings.Builder, t reflect.Type, o DocOpts, dept
 
 var sigBytes = []byte("{}[],:\"\\/ \n019-+.eEtrufalsn\x00\x7f\x80\xc3")
 
+var runBytes = []byte("\x80\x80\xbf\xa9\xff\xc3\xe2\xf0\x00 \"\\[{]}0-9a,:")
+
 // Mutate applies 1..3 byte/token level mutations to a document.
 func Mutate(rt *rapid.T, doc []byte) []byte {
 	b := append([]byte{}, doc...)
@@ -594,7 +597,11 @@ func Mutate(rt *rapid.T, doc []byte) []byte {
 			continue
 		}
 		pos := rapid.IntRange(0, len(b)-1).Draw(rt, "mpos")
-		switch rapid.IntRange(0, 5).Draw(rt, "mkind") {
+		switch rapid.IntRange(0, 6).Draw(rt, "mkind") {
+		case 6: // insert a run of one byte value (runs of continuation / invalid bytes, quotes, brackets, digits, NULs)
+			c := rapid.SampledFrom(runBytes).Draw(rt, "runbyte")
+			run := bytes.Repeat([]byte{c}, rapid.SampledFrom([]int{2, 3, 7, 8, 15, 16, 17, 31, 32, 33, 34, 40, 63, 64, 65, 100}).Draw(rt, "runlen"))
+			b = append(b[:pos], append(run, b[pos:]...)...)
 		case 0: // delete
 			b = append(b[:pos], b[pos+1:]...)
 		case 1: // insert
